@@ -565,7 +565,7 @@ func (pk *Packet) DisconnectEncode(buf *bytes.Buffer) error {
 
 // DisconnectDecode decodes a Disconnect packet.
 func (pk *Packet) DisconnectDecode(buf []byte) error {
-	if pk.ProtocolVersion == 5 && pk.FixedHeader.Remaining > 1 {
+	if pk.ProtocolVersion == 5 && pk.FixedHeader.Remaining > 0 {
 		var err error
 		var offset int
 		pk.ReasonCode, offset, err = decodeByte(buf, offset)
@@ -573,7 +573,7 @@ func (pk *Packet) DisconnectDecode(buf []byte) error {
 			return fmt.Errorf("%s: %w", err, ErrMalformedReasonCode)
 		}
 
-		if pk.FixedHeader.Remaining > 2 {
+		if pk.FixedHeader.Remaining > 1 { // [MQTT 3.14.2.2.1] property length may be omitted
 			_, err = pk.Properties.Decode(pk.FixedHeader.Type, bytes.NewBuffer(buf[offset:]))
 			if err != nil {
 				return fmt.Errorf("%s: %w", err, ErrMalformedProperties)
@@ -1145,9 +1145,17 @@ func (pk *Packet) AuthDecode(buf []byte) error {
 	var offset int
 	var err error
 
+	if pk.FixedHeader.Remaining == 0 {
+		return nil // [MQTT 3.15.2.1] reason code 0x00 and properties may be omitted
+	}
+
 	pk.ReasonCode, offset, err = decodeByte(buf, offset)
 	if err != nil {
 		return fmt.Errorf("%s: %w", err, ErrMalformedReasonCode)
+	}
+
+	if pk.FixedHeader.Remaining == 1 {
+		return nil // property length omitted
 	}
 
 	_, err = pk.Properties.Decode(pk.FixedHeader.Type, bytes.NewBuffer(buf[offset:]))
